@@ -243,6 +243,19 @@ func init() {
 			e.netDgrams = append(e.netDgrams, d)
 			return done(nil)
 		},
+		"verifDatagramFrom": func(e *Exec, t *Thread, a []Value, g bool) (Value, bool) {
+			sl := a[0].(Slice)
+			var d []*term.T
+			for i := 0; i < sl.Len; i++ {
+				d = append(d, e.sliceElem(sl, i).(*term.T))
+			}
+			e.netDgrams = append(e.netDgrams, d)
+			for len(e.netFrom) < len(e.netDgrams)-1 {
+				e.netFrom = append(e.netFrom, nil)
+			}
+			e.netFrom = append(e.netFrom, []*term.T{a[1].(*term.T), e.toInt(a[2], types.Typ[types.Int])})
+			return done(nil)
+		},
 		"verifNetWrites": func(e *Exec, t *Thread, a []Value, g bool) (Value, bool) {
 			return done(e.C.BVConst(64, uint64(len(e.netWrites))))
 		},
@@ -463,6 +476,11 @@ func init() {
 			}
 			d := e.netDgrams[0]
 			e.netDgrams = e.netDgrams[1:]
+			var from []*term.T
+			if len(e.netFrom) > 0 {
+				from = e.netFrom[0]
+				e.netFrom = e.netFrom[1:]
+			}
 			n := len(d)
 			if n > buf.Len {
 				n = buf.Len
@@ -471,7 +489,19 @@ func init() {
 				e.storeElem(buf, i, d[i])
 			}
 			ua := e.World.Pkgs["net"].Type("UDPAddr").Type()
-			o := e.newObj(ua, e.zero(ua))
+			st := e.zero(ua).(*Struct)
+			if from != nil {
+				// sender 192.0.2.<host>:<port> in 16-byte form
+				ip := e.newArrayObj(types.Typ[types.Uint8], 16)
+				pre := []uint64{0, 0, 0, 0, 0, 0, 0, 0, 0, 0, 0xff, 0xff, 192, 0, 2}
+				for i, b := range pre {
+					ip.V.(*Array).E[i] = e.C.BVConst(8, b)
+				}
+				ip.V.(*Array).E[15] = from[0]
+				st.F[0] = Slice{Arr: ip, Len: 16, Cap: 16}
+				st.F[1] = from[1]
+			}
+			o := e.newObj(ua, st)
 			return done(Tuple{e.C.BVConst(64, uint64(n)), Ptr{Obj: o}, Iface{}})
 		},
 		"(*net.UDPConn).WriteToUDP": func(e *Exec, t *Thread, a []Value, g bool) (Value, bool) {
@@ -568,6 +598,17 @@ func init() {
 				bs[i] = e.sliceElem(s, i).(*term.T)
 			}
 			return done(e.indexByte(bs, a[1].(*term.T)))
+		},
+		"internal/bytealg.Equal": func(e *Exec, t *Thread, a []Value, g bool) (Value, bool) {
+			x, y := a[0].(Slice), a[1].(Slice)
+			if x.Len != y.Len {
+				return done(e.C.False)
+			}
+			r := e.C.True
+			for i := 0; i < x.Len; i++ {
+				r = e.C.BAnd(r, e.C.Eq(e.sliceElem(x, i).(*term.T), e.sliceElem(y, i).(*term.T)))
+			}
+			return done(r)
 		},
 		"internal/bytealg.CountString": func(e *Exec, t *Thread, a []Value, g bool) (Value, bool) {
 			bs := e.strBytes(a[0].(*Str))
